@@ -127,19 +127,27 @@ impl Model {
         }
     }
 
-    /// Judge one verdict of the real object.
-    fn judge(&mut self, machine: &str, at: &str, v: bool, vs: &mut Vec<Violation>) {
+    /// Judge one verdict of the real object. `on_local` = the verdict answers a report about the
+    /// local node (which, by the statement, changes nothing).
+    fn judge(&mut self, machine: &str, at: &str, on_local: bool, v: bool, vs: &mut Vec<Violation>) {
         let rho = self.rho.as_ref().unwrap();
         let (c, d) = readings(&self.t, rho, &self.s, self.s.len());
         let detail = || json!({"T": names(&self.t), "rho": format!("{rho:?}"), "S": names(&self.s), "conjunctive": c, "disjunctive": d, "verdict": v, "at": at});
         if !accepted(v, &self.t, rho, &self.s) {
             let kind = if v { "success-but-target-unmet" } else { "no-success-but-target-met" };
+            let cause = match self.cause(v) {
+                "unexplained" if on_local => "answer-to-local-node-report",
+                c => c,
+            };
             vs.push(Violation::new(
-                format!("C25/{machine}/verdict/{kind}/{}", self.cause(v)),
+                format!("C25/{machine}/verdict/{kind}/{cause}"),
                 format!("{machine} {at}: verdict success={v} with T={{{}}} rho={rho:?} S={{{}}} matches neither reading (conjunctive={c}, disjunctive={d})", names(&self.t), names(&self.s)),
                 detail(),
             ));
-        } else if let Some((v0, s0)) = &self.last {
+            // A rejected verdict is not remembered (one defect, one report).
+            return;
+        }
+        if let Some((v0, s0)) = &self.last {
             if *s0 == self.s && *v0 != v {
                 vs.push(Violation::new(
                     format!("C25/{machine}/verdict-changed-without-new-success/{}", self.cause(v)),
@@ -251,7 +259,7 @@ impl System for ASys {
                         vs.push(Violation::new("C25/announcer/local-node-counted/success-set", "Success::synced contains the local node", Value::Null));
                     }
                 }
-                self.m.judge("announcer", "synced_with", v, &mut vs);
+                self.m.judge("announcer", "synced_with", n == L, v, &mut vs);
                 self.handout_check(&mut vs);
                 let kind = if n == L { "local" } else if n == 4 { "unknown" } else { "known" };
                 StepOut { violations: vs, outcome: format!("announcer:synced_with({kind}):{}", if v { "Break(Success)" } else { "Continue" }), dead: false }
@@ -272,7 +280,7 @@ impl System for ASys {
                         vs.push(Violation::new("C25/announcer/hands-out-local-node/timed_out", "TimedOut::timed_out contains the local node", Value::Null));
                     }
                 }
-                self.m.judge("announcer", "timed_out", v, &mut vs);
+                self.m.judge("announcer", "timed_out", false, v, &mut vs);
                 StepOut { violations: vs, outcome: format!("announcer:timed_out:{label}"), dead: true }
             }
             AEv::CanContinue => {
@@ -447,7 +455,7 @@ impl System for FSys {
                     ));
                 }
                 let v = cf.is_break();
-                self.m.judge("fetcher", "fetch_complete", v, &mut vs);
+                self.m.judge("fetcher", "fetch_complete", n == L, v, &mut vs);
                 StepOut {
                     violations: vs,
                     outcome: format!("fetcher:fetch_complete({},{}{}):{}", kind(n), if ok { "ok" } else { "failed" }, if repeat { ",repeat" } else { "" }, if v { "Break(Success)" } else { "Continue" }),
@@ -475,7 +483,7 @@ impl System for FSys {
                     FetcherResult::TargetReached(_) => (true, "TargetReached"),
                     FetcherResult::TargetError(_) => (false, "TargetError"),
                 };
-                self.m.judge("fetcher", "finish", v, &mut vs);
+                self.m.judge("fetcher", "finish", false, v, &mut vs);
                 StepOut { violations: vs, outcome: format!("fetcher:finish:{label}"), dead: true }
             }
         }
@@ -523,20 +531,24 @@ fn main() {
 
     // Universe per tier. Masks range over {L,a,b,c} (thorough) or {L,a,b} (quick); `u` is never in a
     // configuration. Replication factors up to 3 / 2.
+    // The announcer is cheap enough for the full universe in both tiers.
     let mask_bits: u8 = if thorough { 4 } else { 3 };
     let nodes: Vec<u8> = if thorough { vec![0, 1, 2, 3, 4] } else { vec![0, 1, 2, 4] };
     let rep_list = reps(if thorough { 3 } else { 2 });
     let masks: Vec<u8> = (0..(1u8 << mask_bits)).collect();
+    let a_nodes: Vec<u8> = vec![0, 1, 2, 3, 4];
+    let a_masks: Vec<u8> = (0..16u8).collect();
+    let a_reps = reps(3);
 
     let a_configs = |pref: Option<u8>| -> Vec<AEv> {
         let mut v = vec![];
-        for &p in &masks {
+        for &p in &a_masks {
             if pref.is_some_and(|x| x != p) {
                 continue;
             }
-            for &s in &masks {
-                for &u in &masks {
-                    for &r in &rep_list {
+            for &s in &a_masks {
+                for &u in &a_masks {
+                    for &r in &a_reps {
                         v.push(AEv::AnnouncerConfig { preferred: p, synced: s, unsynced: u, replicas: r });
                     }
                 }
@@ -571,12 +583,12 @@ fn main() {
     }
 
     // Depth counts the configuration event.
-    let (a_depth, f_depth) = if thorough { (1 + 5, 1 + 4) } else { (1 + 4, 1 + 4) };
+    let (a_depth, f_depth) = (1 + 5, 1 + 4);
 
     // Announcer: one exploration per preferred-seed mask (bounds the state table).
     let mut a_acc: Option<Result_<AEv>> = None;
-    for &p in &masks {
-        let sp = ASpace { configs: std::sync::Arc::new(a_configs(Some(p))), nodes: nodes.clone() };
+    for &p in &a_masks {
+        let sp = ASpace { configs: std::sync::Arc::new(a_configs(Some(p))), nodes: a_nodes.clone() };
         merge(&mut a_acc, explore::explore("C25", move || ASys::new(sp.clone()), Bounds::new(a_depth, 0).wall_secs(120)));
     }
     let a_res = a_acc.unwrap();
@@ -618,7 +630,7 @@ fn main() {
     );
     cov.insert(
         "alphabet".into(),
-        json!({"universe": nodes.iter().map(|n| NAMES[*n as usize]).collect::<Vec<_>>(), "configurable_nodes": mask_bits, "replication_factors": rep_list.iter().map(|r| format!("{r:?}")).collect::<Vec<_>>(), "fetch_complete_with_failed_result": thorough}),
+        json!({"announcer_universe": ["L", "a", "b", "c", "u"], "announcer_replication_factors": a_reps.iter().map(|r| format!("{r:?}")).collect::<Vec<_>>(), "universe": nodes.iter().map(|n| NAMES[*n as usize]).collect::<Vec<_>>(), "configurable_nodes": mask_bits, "replication_factors": rep_list.iter().map(|r| format!("{r:?}")).collect::<Vec<_>>(), "fetch_complete_with_failed_result": thorough}),
     );
     let mut violations = f_res.violations;
     violations.merge(a_res.violations);
